@@ -79,7 +79,7 @@ func VerifHarness_C17_main() {
 		i2 = vPick("w2", 0, len(vWarriorTexts)-2)
 	}
 	t1, t2 := texts[i1], texts[i2]
-	if use88 {
+	if use88 && preset == 0 {
 		t1, t2 = texts88[i1], texts88[i2]
 	}
 
@@ -91,6 +91,12 @@ func VerifHarness_C17_main() {
 		// (a core size below the placement, a length above the preset's)
 		vSetFlagInt("s", 7)
 		vSetFlagInt("l", 9)
+		if use88 {
+			// -8 is one of them: the preset names its own rule set, and the
+			// warriors keep their '94 spelling (modifiers), which an '88
+			// assembly would reject
+			vSetFlagBool("8", true)
+		}
 	} else {
 		vSetFlagInt("s", size)
 		vSetFlagInt("p", procs)
